@@ -3,8 +3,8 @@ package main
 func init() {
 	register(&Spec{
 		ID:       "C09",
-		Pkgs:     []string{"rules", "root", "filterlist"},
-		InitPkgs: []string{"rules"},
+		Pkgs:     []string{"root", "rules", "filterutil", "lookup", "filterlist"},
+		InitPkgs: []string{"filterutil", "rules", "filterlist", "lookup", "root"},
 		Jobs: func(tier string) []Job {
 			maxK := 3 // with all six payload kinds; thorough adds k=4 over four kinds and k=5 over three
 			jobs := []Job{{Pkg: "root", Func: "verifC09Vacuity", Vacuity: true}}
